@@ -210,7 +210,7 @@ def isarray(x):
 def shape_is(a, *dims):
     """boolean: array a has exactly this shape (rank is concrete)"""
     if not isinstance(a, SArr):
-        return False
+        return len(dims) == 0 and isinstance(a, (Sc, Cx, int, float, complex))
     if a.ndim != len(dims):
         return False
     return And(*[lift(x) == lift(y) for x, y in zip(a.shape, dims)])
@@ -262,6 +262,8 @@ def elem(a, *i):
     """element of an array-like at index tuple"""
     if isinstance(a, SArr):
         return a.at(*i)
+    if not i:
+        return a
     return a[i] if len(i) > 1 else a[i[0]]
 
 
